@@ -2,6 +2,7 @@ package main
 
 import (
 	"encoding/json"
+	"fmt"
 	"sort"
 	"sync"
 
@@ -65,6 +66,10 @@ func qtBuild(c *ctx, shard int, bndLo, bndHi int, pts [][2]int, rem []int) (*qua
 	}
 	return q, ptrs, true
 }
+
+var c19Side *quadtree.Quadtree
+var c19SidePts []orb.Point
+var c19SideAlone []string
 
 func idsOf(res []orb.Pointer) []int {
 	out := []int{}
@@ -213,6 +218,16 @@ func init() {
 	})
 
 	register("qtrace", func(c *ctx) {
+		// the other tree: 400 points, asked for the 300 nearest from four places (answers taken now, alone)
+		c19Side = quadtree.New(orb.Bound{Min: orb.Point{0, 0}, Max: orb.Point{1024, 1024}})
+		for j := 0; j < 400; j++ {
+			c19Side.Add(&qtPtr{id: 100000 + j, p: orb.Point{float64((j * 37) % 1024), float64((j * 101) % 1024)}})
+		}
+		c19SidePts = []orb.Point{{0, 0}, {512, 512}, {1000, 10}, {300, 900}}
+		c19SideAlone = nil
+		for _, sp := range c19SidePts {
+			c19SideAlone = append(c19SideAlone, fmt.Sprint(idsOf(c19Side.KNearest(nil, sp, 300))))
+		}
 		ntrees := c.pick(24, 200)
 		for t := 0; t < ntrees; t++ {
 			shard := t % c.shards
@@ -262,7 +277,7 @@ func init() {
 			plans := make([]plan, ng)
 			slots := make([]orb.Pointer, ng*4096) // one array of result slots, a region of it per goroutine
 			for g := range plans {
-				qs := &qtQueries{ks: []int{1, 3, 8}, mds: []int{0, 300, 5000}, filters: [][2]int{{1, 0}, {2, g % 2}}, rev: g%3 == 1} // some goroutines ask the filtered questions first
+				qs := &qtQueries{ks: [][]int{{1, 3, 8}, {1, 3, 8}, {1, 8, 300}}[g%3], mds: []int{0, 300, 5000}, filters: [][2]int{{1, 0}, {2, g % 2}}, rev: g%3 == 1} // some goroutines ask the filtered questions first
 				for i := 0; i < 6; i++ {
 					qs.pts = append(qs.pts, [2]int{c.rng.Intn(1025), c.rng.Intn(1025)})
 				}
@@ -284,9 +299,32 @@ func init() {
 					defer wg.Done()
 					<-start
 					sites[g] = guard(func() {
+						if g%3 == 0 {
+							// a caller whose filter gives up half-way (it panics and recovers, as callers may): the queries that follow,
+							// its own and everybody else's, are not affected by what that search left behind
+							func() {
+								defer func() { recover() }()
+								seen := 0
+								q.KNearestMatching(nil, orb.Point{float64(100 * g), 512}, 2, func(orb.Pointer) bool {
+									seen++
+									if seen == 3 {
+										panic("the caller's filter gives up")
+									}
+									return true
+								})
+							}()
+						}
 						for rep := 0; rep < 3; rep++ { // repeat so that the goroutines overlap for a while
 							var e qtEv
 							qtObserve(q, &e, plans[g].qs, g%2 == 0) // with and without per-goroutine buffers
+							// ... and questions to ANOTHER pre-built tree in between (k = 300 of its 400 points): trees share nothing
+							if g%2 == 1 {
+								for si, sp := range c19SidePts {
+									if fmt.Sprint(idsOf(c19Side.KNearest(nil, sp, 300))) != c19SideAlone[si] {
+										e.Inb = append(e.Inb, []int{0, 0, 0, 0, 1, 0, -3}) // no model accepts this row
+									}
+								}
+							}
 							plans[g].ev = e
 						}
 					})
